@@ -408,8 +408,13 @@ class Real {
 #else
   Real() : n(ctx().real_val(0)) {}
 #endif
+  // -DSYMT_IMPLICIT_INT: the conversion from integral types is implicit, as it is for the built-in floating types - used by
+  // the harness that passes integer literals where the API takes `const T &` (a / 2, a *= 3, s(1))
   template <typename I, std::enable_if_t<std::is_integral_v<I>, bool> = true>
-  explicit Real(I i) : n(ctx().real_val(std::to_string((long long)i).c_str())) {}
+#ifndef SYMT_IMPLICIT_INT
+  explicit
+#endif
+  Real(I i) : n(ctx().real_val(std::to_string((long long)i).c_str())) {}
   Real(z3::expr nn, FacMS dd) : n(nn), d(std::move(dd)) {}
   // copy only: a moved-from scalar keeps its value (as a built-in would); z3::expr's own move would leave a null term
   Real(const Real &) = default;
@@ -663,7 +668,10 @@ class Real {
   Real() : v{Q(0)} {}
 #endif
   template <typename I, std::enable_if_t<std::is_integral_v<I>, bool> = true>
-  explicit Real(I i) : v{Q((long long)i)} {}
+#ifndef SYMT_IMPLICIT_INT
+  explicit
+#endif
+  Real(I i) : v{Q((long long)i)} {}
   struct FromQ {};
   Real(FromQ, Q q) : v{std::move(q)} {}
   struct FromV {};
